@@ -403,7 +403,13 @@ impl Sm2PrivateKey {
 
 /// generate key pair
 pub fn gen_keypair() -> Sm2Result<(Sm2PublicKey, Sm2PrivateKey)> {
-    let d = random_u256();
+    // a private key lies in [1, n-2]
+    let d = loop {
+        let d = random_u256();
+        if u256_cmp(&d, &SM2_N_MINUS_TWO) <= 0 {
+            break d;
+        }
+    };
     let pk = public_from_private(&d)?;
     let sk = Sm2PrivateKey { d, public_key: pk };
     Ok((pk, sk))
